@@ -207,6 +207,123 @@ def run_cue(case):
         return run_bytes(p)
 
 
+# ----------------------------------------------------------------------------- growth of the work with the input size
+SCALE_FAMILIES = ["cdda_same_title", "cdda_distinct", "akai_same_name", "akai_distinct", "akai_chain", "akai_pairs", "akai_volumes",
+                  "roland_same_name", "roland_distinct", "cue_rem_lines"]
+
+
+def scale_input(family, n, d):
+    """-> what to open (bytes or a path below the scratch directory d): an input whose size grows linearly with n"""
+    if family.startswith("cdda") or family == "cue_rem_lines":
+        k = n if family != "cue_rem_lines" else 3
+        tracks = [{"number": i + 1, "title": ("SAME" if family == "cdda_same_title" else "TRACK %04d" % i), "indices": [(1, i)]}
+                  for i in range(k)]
+        with open(os.path.join(d, "disc.bin"), "wb") as f:
+            f.write(Q.bin_bytes(Q.SECTOR * (k + 1)))
+        p = os.path.join(d, "disc.cue")
+        with open(p, "w") as f:
+            if family == "cue_rem_lines":
+                f.write("".join("REM line %05d\n" % i for i in range(20 * n)))
+            f.write(Q.cue_text("disc.bin", tracks))
+        return p
+    if family.startswith("akai"):
+        if family == "akai_chain":
+            files = [{"name": "LONG", "n": A.words_for_sectors(n), "chain": list(range(4, 4 + n))[::-1], "seq": 1}]
+            vols = [{"name": "VOL", "dir": [3], "files": files}]
+        elif family == "akai_volumes":
+            k = min(n, 99)
+            vols = [{"name": "V%03d" % i, "dir": [3 + 2 * i], "files": [{"name": "S", "n": 30, "chain": [4 + 2 * i], "seq": 1}]} for i in range(k)]
+        else:
+            dsec = 1 if n <= 340 else 2
+            def nm(i):
+                if family == "akai_same_name":
+                    return "SAME"
+                if family == "akai_pairs":
+                    return "P%04d -%s" % (i // 2, "LR"[i % 2])
+                return "S%05d" % i
+            files = [{"name": nm(i), "n": 20, "chain": [3 + dsec + i], "seq": 1 + i % 40} for i in range(min(n, 500))]
+            vols = [{"name": "VOL", "dir": list(range(3, 3 + dsec)), "files": files}]
+        return A.build_akai(A.model_from_spec({"parts": [{"vols": vols}]}))[0]
+    # roland: n samples in one performance (4 per partial)
+    from mcv.gen import roland as R
+    samples = {i: {"name": ("SAME" if family == "roland_same_name" else "S%05d" % i), "chain": [2 + i], "points": [0, 0, 20, 0, 9],
+                   "mode": 0, "seq": 1 + i % 40} for i in range(n)}
+    partials = {k // 4: {"name": "P%03d" % (k // 4), "samples": list(range(k, min(n, k + 4)))} for k in range(0, n, 4)}
+    model = {"volumes": [{"name": "VOL", "perfs": [0]}], "performances": {0: {"name": "PERF", "patches": [0]}},
+             "patches": {0: {"name": "PATCH", "partials": sorted(partials)[:88]}}, "partials": partials, "samples": samples}
+    return R.build_roland(model)[0]
+
+
+def line_profile(fn):
+    """executed-line counts per function of the code under test (deterministic: no clock involved)"""
+    import sys
+    import collections
+    counts = collections.Counter()
+
+    def local(frame, event, arg):
+        if event == "line":
+            co = frame.f_code
+            counts[(os.path.basename(co.co_filename), co.co_name, co.co_firstlineno)] += 1
+        return local
+
+    def tracer(frame, event, arg):
+        if event == "call" and "smpl_extract" in frame.f_code.co_filename:
+            co = frame.f_code
+            counts[(os.path.basename(co.co_filename), co.co_name, co.co_firstlineno)] += 1
+            return local
+        return None
+    old = sys.gettrace()
+    sys.settrace(tracer)
+    try:
+        fn()
+    finally:
+        sys.settrace(old)
+    return counts
+
+
+def scale_run(family, n):
+    from mcv.checks.c10 import parse_table
+    with scratch_dir("c13s") as d:
+        src = scale_input(family, n, d)
+
+        def go():
+            img = tree.open_image(src)
+            root = tree.ls(img, "")
+            for nm in (parse_table(root) or [])[:2]:
+                if nm.strip():
+                    sub = tree.ls(img, nm)
+                    for nm2 in (parse_table(sub) or [])[:1]:
+                        if nm2.strip():
+                            tree.ls(img, nm + "/" + nm2)
+            tree.export(tree.open_image(src), os.path.join(d, "out"))
+        prof = {}
+        st, val = guarded(lambda: prof.update(line_profile(go)), 120.0)
+    return st, val, prof
+
+
+def run_scaling(case):
+    """work(2n) against work(n), per function: linear work doubles, n log n work grows by ~2.2, quadratic work by 4"""
+    fam, n = case["family"], case["n"]
+    st1, v1, p1 = scale_run(fam, n)
+    st2, v2, p2 = scale_run(fam, 2 * n)
+    for st, v in ((st1, v1), (st2, v2)):
+        if st == "hang":
+            return False, "hang", {"observed": "no result within 120 s CPU under the line counter"}
+    if st1 != st2:
+        return True, "scaling:outcome-changes-with-size", None
+    worst = None
+    for key, c2 in p2.items():
+        c1 = p1.get(key, 0)
+        if c2 >= 4000 and c2 > 3.0 * max(c1, 1) + 400:
+            r = c2 / max(c1, 1)
+            if worst is None or r > worst[0]:
+                worst = (r, key, c1, c2)
+    if worst:
+        return False, "superlinear", {"function": "%s:%s (line %d)" % worst[1], "lines_executed_at_n": worst[2],
+                                      "lines_executed_at_2n": worst[3], "n": n, "ratio": round(worst[0], 2)}
+    return True, "scaling:linear", None
+
+
 class Check(CheckBase):
     death_is_violation = True   # a run that takes its process down has not terminated with bounded resources
     id = "C13"
@@ -223,7 +340,11 @@ class Check(CheckBase):
             "hostile lines and by 70 regular-expression stress lines (keyword + unterminated quote/number list + 40 x one character), "
             "bin missing or empty; thorough: ALL PAIRS of table faults (AKAI SAT x SAT, Roland FAT x FAT) and "
             "all pairs (table fault, pointer/entry fault). Every run = ls at the root and at every reachable node + export, "
-            "under an 8 s CPU budget (clean run: 0.03-0.3 s) and a 6 GiB address-space limit. non-trivial = fault that changes "
+            "under an 8 s CPU budget (clean run: 0.03-0.3 s) and a 6 GiB address-space limit; (growth) 10 input families whose size "
+            "grows linearly with n (n CDDA tracks with one / distinct titles, n AKAI files with one / distinct names, n/2 L/R pairs, "
+            "n volumes, one file of n sectors, n Roland samples with one / distinct names, 20n comment lines) run at n and 2n "
+            "(n=60; thorough also 150) under a line counter: no function of the tool may execute more than 3x the lines at 2n "
+            "(linear work doubles, quadratic work quadruples) -- deterministic, no clock involved. non-trivial = fault that changes "
             "the outcome class")
     assumptions = ["'arbitrary bytes' is covered only by all files of <=2 bytes, constant fills and the enumerated corruption "
                    "menus -- not by sampling", "budget is deliberately loose (>=25x the clean run)"]
@@ -246,6 +367,9 @@ class Check(CheckBase):
                 cue.append({"op": "replace", "line": i, "repl": r})
         out += [{"kind": "cue", "cases": cue[i:i + 30]} for i in range(0, len(cue), 30)]
         out.append({"kind": "satfill"})
+        for fam in SCALE_FAMILIES:
+            for n in ((60,) if self.quick else (60, 150)):
+                out.append({"kind": "scaling", "family": fam, "n": n})
         if not self.quick:
             asat = all_faults("akai", {"sat"})
             aother = all_faults("akai", {"vol", "file", "prog"})
@@ -273,13 +397,19 @@ class Check(CheckBase):
                 ok, klass, detail = run_bytes(bytes(b[:c["cut"]]))
             elif c["kind"] == "cue":
                 ok, klass, detail = run_cue(c["case"])
+            elif c["kind"] == "scaling":
+                ok, klass, detail = run_scaling(c)
             else:
                 ok, klass, detail = run_bytes(apply_faults(c["subject"], c["faults"]))
             rep.case(c, ok=ok, klass=klass, detail=detail, sig=f"{c['kind']}:{klass}")
             return
         kind = shard["kind"]
         hangs = 0
-        if kind == "tiny":
+        if kind == "scaling":
+            ok, klass, detail = run_scaling(shard)
+            rep.case({"kind": "scaling", "family": shard["family"], "n": shard["n"]}, ok=ok, klass=klass, nontrivial=True, detail=detail,
+                     sig="scaling:" + klass + (":" + detail["function"] if detail and "function" in detail else ""))
+        elif kind == "tiny":
             todo = []
             if shard["lo"] == 0:
                 todo.append(b"")
